@@ -244,6 +244,20 @@ func bindKdc(rep *Report, env *Env) int {
 		}
 		r.kdc.mu.Unlock()
 	}
+	// histories on the real process: a request naming a realm, then one without a realm (= default realm): the
+	// second goes to the default realm's KDC, whatever came before (repeated, the process recycles objects)
+	for k := 0; k < 6; k++ {
+		n++
+		rep.add("executions", 2)
+		post("POST", der.KdcProxyMessage(msg, "UDPREPLY.TEST", true, 0, false), 30*time.Second)
+		resp, _ := post("POST", der.KdcProxyMessage(msg, "", false, 0, false), 30*time.Second)
+		want := realms[0].kdc.reply("tcp")
+		m, err := der.ParseKdcProxyMessage(resp.Body)
+		if resp.Status != 200 || err != nil || !bytes.Equal(m, append([]byte{0, 0, 0, byte(len(want))}, want...)) {
+			viol("request-without-realm-not-answered-by-the-default-realm/after-a-request-naming-another-realm", fmt.Sprintf("round %d: status %d, body carries %q, the default realm's KDC answers %q", k, resp.Status, m, want))
+			break
+		}
+	}
 	// a realm that is not configured: an answer, not 200, nothing sent anywhere
 	{
 		n++
